@@ -87,7 +87,9 @@ let check_C19 fields =
   (* lock-step cases are also judged by the per-message discipline (Terminate rule) *)
   check_with false (fun sc log -> oracle_C19 sc log && (not (is_lock fields) || oracle_turns sc log)) fields
 let check_C02 = check_with false (fun _ _ -> true)   (* the oracle is the strict grammar itself: an unparsable output is an oracle failure *)
-let check_C15 = check_with true oracle_turns
+(* several connections on one server: each is judged on its own (the reply discipline, and the validator is asked
+   about this connection's own database, user and password) *)
+let check_C15 = check_with true (fun sc log -> oracle_turns sc log && (sc.sc_auth = None || oracle_C01 sc log))
 
 (* C03: the variants of one byte stream (ids <n>.v<k>) must produce the identical log *)
 let seg_first : (string, string) Hashtbl.t = Hashtbl.create 1024
